@@ -196,6 +196,9 @@ def scenarios(tier, seed):
 def run(tier, seed):
     rep = Report("C20", tier, seed, level="fault_enumeration")
     rep.add_proof("SubgridSlicesInBounds")
+    rep.add_mc("MC_Startup", tlc.model_check("MC_Startup", "MC_Startup.cfg" if tier == "thorough" else "MC_Startup_quick.cfg", must_take=["Choose"]),
+               note="the start-up test on real times implies a covered layout in simulation steps with a bracketing pair of frames for every half step "
+                    "(never extrapolates); a sorted frame set that fails the test lacks forcing somewhere in [start, stop]")
     scs = scenarios(tier, seed)
     traces = pmap("harness.checks.c20", "fault_trace", scs)
     rep.add_tv("faults", "StartupTrace", scs, traces, tlc.validate_traces("StartupTrace", traces), family=FAMILY)
